@@ -7,17 +7,18 @@ import flight, vlib
 
 def run(ctx):
     ids = flight.parrots(ctx)
-    rep = [("Chrome-133", []), ("Firefox-120", []), ("Chrome-100_PSK", ["psk"]), ("iOS-14", []), ("Chrome-58", ["v12"]), ("Edge-106", [])]
+    rep = [("Chrome-133", []), ("Firefox-120", []), ("Chrome-100_PSK", ["psk"]), ("Chrome-58", ["v12"]), ("iOS-14", []), ("Edge-106", [])]
+    docs = flight.repo_json_docs()
     if ctx.quick:
         rnd = random.Random(ctx.seed)
-        rep.append((rnd.choice([i for i in ids if i not in {p for p, f in rep}]), []))
-        sel = rep
-        maps = ["Chrome-133[]", "Firefox-120[]", "Chrome-58[v12]"]
+        sel = rep[:4] + [(rnd.choice([i for i in ids if i not in {p for p, f in rep[:4]}]), [])]
+        maps = ["Chrome-133[]", "Firefox-120[]"]
+        docs = docs[:1] + [rnd.choice(docs[1:])] if len(docs) > 2 else docs
     else:
         sel = rep + [(i, []) for i in ids if (i, []) not in rep]
         maps = None
     cases = [{"name": "%s[%s]" % (p, "+".join(f)), "parrot": p, "flags": f} for p, f in sel]
-    cov = flight.run_import_family(ctx, "C07", cases, maps if maps is not None else [c["name"] for c in cases], flight.repo_json_docs())
+    cov = flight.run_import_family(ctx, "C07", cases, maps if maps is not None else [c["name"] for c in cases], docs)
     return "exploration", cov, [
         "only STRUCTURED inputs are explored (one grammar-node / tree-position mutation of a real capture or of a repository JSON spec per input); arbitrary byte strings, arbitrary JSON and coverage-guided fuzzing are not covered by this technique family",
         "'syntactically valid ClientHello' is TLSWire!ValidClientHello on the mutated record (record framing exact, RFC grammar of every known extension, unknown extensions opaque)",
